@@ -5,7 +5,7 @@
    moving between carriers "surfaces as exactly one accepted connection whose stream continues" depends on
    kcp-go/smux keyed by the ClientID address; it is observed by black-box runs (C18, C01), not proved. *)
 From Coq Require Import List NArith Bool Arith.
-From Snow Require Import Lib.Wire Model.Encap Proofs.EncapProofs Model.CarrierLayer Proofs.CarrierProofs Proofs.CarrierOnceProofs.
+From Snow Require Import Lib.Wire Model.Encap Proofs.EncapProofs Model.CarrierLayer Proofs.CarrierProofs Proofs.CarrierOnceProofs Proofs.CarrierFragProofs.
 Import ListNotations.
 Open Scope N_scope.
 
@@ -81,6 +81,17 @@ Theorem C05_fragmentation_independent : forall f1 b1 b2, (length b1 < f1)%nat ->
   if d1 then (ps1, [], true)
   else let '(ps2, t2, d2) := open_pump (S (length (t1 ++ b2))) (t1 ++ b2) in (ps1 ++ ps2, t2, d2).
 Proof. exact open_pump_app. Qed.
+
+(* At the level of the whole server state and in every phase (token, ClientID, chunks): any number of
+   consecutive arrivals on a carrier leave the server in exactly the state of ONE arrival of their
+   concatenation — same carriers, same queued packets under the same ClientIDs, same everything. *)
+Theorem C05_arrivals_concatenate : forall s i b1 b2,
+  sstep (sstep s (S_Recv i b1)) (S_Recv i b2) = sstep s (S_Recv i (b1 ++ b2)).
+Proof. exact recv_split. Qed.
+
+Theorem C05_arrivals_concatenate_many : forall pieces s i b,
+  fold_left (fun st x => sstep st (S_Recv i x)) pieces (sstep s (S_Recv i b)) = sstep s (S_Recv i (b ++ concat pieces)).
+Proof. exact recv_pieces. Qed.
 
 Theorem C05_pump_is_open_pump : forall fuel k, k_state k = K_Open ->
   let '(ps, t, dd) := open_pump fuel (k_buf k) in
